@@ -133,6 +133,10 @@ def hypothesis_run(ctx):
         if line.startswith("stat::number_of_executed_units:"):
             done = int(line.split(":")[-1])
     ctx.extra["atheris_executions"] = ctx.extra.get("atheris_executions", 0) + done
+    if done < runs:
+        # a campaign that ended early: keep its tail for the evidence file (diagnosis)
+        ctx.extra["atheris_short_campaigns"] = ctx.extra.get("atheris_short_campaigns", 0) + 1
+        ctx.extra["atheris_last_short_tail_shard%d" % ctx.shard] = out[-400:]
     ctx.extra["atheris_campaigns_seeded_corpus" if seeded else "atheris_campaigns_empty_corpus"] = 1
     sys.path.insert(0, harness)
     import fuzz_c10
